@@ -147,12 +147,31 @@ static hep::vegas_pdf<T> ref_step(char const* src, int chain, int k, hep::vegas_
             dev = (long long) std::ceil(worst * 1048576.0L);
         }
         std::string ogs = vt::hexvec(og), ngs = vt::hexvec(ng);
+        // does the grid live (partly) in the subnormal range of T, where a boundary has a handful of significant bits left?
+        bool tiny = false;
+        for (T x : og) tiny = tiny || (x != T() && std::fabs(x) < std::numeric_limits<T>::min());
+        for (T x : ng) tiny = tiny || (x != T() && std::fabs(x) < std::numeric_limits<T>::min());
         vt::ev("RefStep").s("src", src).s("T", vt::type_name<T>::get()).i("chain", chain).i("k", k).i("dim", (long long) d).i("B", (long long) B)
             .i("alpha100", (long long) std::lround((double) alpha * 100)).i("fin", finite_all(ng) ? 1 : 0).i("mono", mono(ng) ? 1 : 0)
             .i("first0", ng.front() == T() ? 1 : 0).i("last1", ng.back() == T(1) ? 1 : 0).i("allZero", allzero ? 1 : 0)
-            .i("shareDev", dev).i("inId", vt::ids().id(ogs)).i("outId", vt::ids().id(ngs)).emit();
+            .i("shareDev", dev).i("inId", vt::ids().id(ogs)).i("outId", vt::ids().id(ngs)).i("tiny", tiny ? 1 : 0).emit();
     }
     return np;
+}
+
+// all importance in the first bin, again and again (a peak at the origin that is narrower than anything the numeric type resolves): the default
+// float grid of 128 bins reaches the subnormal range after about twenty refinements (known finding F13: from there on boundaries can come
+// out one subnormal unit too small - below their left neighbour or below zero)
+template <typename T>
+static void subnormal_chain(std::size_t B, T alpha, int chain, int steps)
+{
+    hep::vegas_pdf<T> pdf(1, B);
+    for (int k = 0; k != steps; ++k)
+    {
+        std::vector<T> data(B, T());
+        data[0] = T(2.5);
+        pdf = ref_step("subnormal", chain, k, pdf, alpha, data);
+    }
 }
 
 template <typename T>
@@ -376,6 +395,7 @@ int main(int argc, char** argv)
     if (thorough) { grid_cases<long double>(3, g, true); grid_cases<float>(4, g, true); grid_cases<double>(4, g, true); }
     defaults_and_icdf<float>(g); defaults_and_icdf<double>(g); defaults_and_icdf<long double>(g);
     zero_dimension_all(g);
+    subnormal_chain<float>(128, 1.0f, 7000, 30);
     chains<float>(g, thorough ? 40 : 8, thorough ? 200 : 40);
     chains<double>(g, thorough ? 40 : 8, thorough ? 200 : 40);
     chains<long double>(g, thorough ? 40 : 8, thorough ? 200 : 40);
